@@ -568,6 +568,9 @@ func main() {
 				next++
 				mu.Unlock()
 				seed := mixSeed(baseSeed, i)
+				if meta.Space > 0 {
+					seed = (baseSeed%1000000)*1000003 + i
+				}
 				p := gen(seed, *tier)
 				o := runPlan(b, p, fmt.Sprintf("%d", i), false, false, wallMax)
 				mu.Lock()
@@ -627,6 +630,10 @@ func main() {
 		}
 	}
 	ev.Coverage["distinct_nontrivial"] = len(nt)
+	if meta.Space > 0 {
+		ev.Coverage["configuration_space"] = meta.Space
+		ev.Coverage["exhaustive"] = len(nt) >= meta.Space
+	}
 	ev.Coverage["determinism_reruns"] = detRuns
 	ev.Coverage["determinism_diverged"] = detDiverged
 	ev.Coverage["infra_failures"] = infraN
